@@ -108,6 +108,7 @@ def restore_stubs():
 def reset_between_paths():
     restore_stubs()
     WARN_POLICY["widget"] = "assume"
+    _AFlow.MAX_ROWS = None
     try:
         _canvas.CanvasCache.clear()
     except Exception:  # noqa: BLE001
@@ -234,7 +235,7 @@ def _realise_flow(table, selectable):
     entries = [(tuple(k), v) for k, v in table.get("entries", [])]
     vals = {v for _, v in entries}
     if not entries:
-        vals = {table.get("else", 1)}
+        vals = {1}  # rows() was never asked: any widget will do
     if len(vals) == 1:
         k = vals.pop()
         if selectable:
@@ -320,6 +321,8 @@ class _AFlow(urwid.Widget):
 
     _sizing = frozenset([urwid.FLOW])
 
+    MAX_ROWS = None  # harnesses whose subject is not geometry bound the child height (stated in their META)
+
     def __init__(self, I, name, selectable=False):
         super().__init__()
         self.I = I
@@ -336,7 +339,10 @@ class _AFlow(urwid.Widget):
         if self.I.symbolic:
             # contract: rows >= 0; a widget that can take the focus has at least one row (true of every bundled
             # selectable flow widget: Edit, Button, CheckBox, RadioButton, SelectableIcon, ...)
-            self.I.axiom(r >= (1 if self._selectable else 0))
+            self.I.axiom(api.Implies(self._selectable, r >= 1))
+            self.I.axiom(r >= 0)
+            if _AFlow.MAX_ROWS is not None:
+                self.I.axiom(r <= _AFlow.MAX_ROWS)
         return r
 
     def rows(self, size, focus=False):
